@@ -251,6 +251,11 @@ func staleCopies(c *cx, id string, f *eng.Fn) int {
 				if !oku || !g.Reachable(g.After(w.pt), up, nil, nil) {
 					return true
 				}
+				// putting the saved value back into the same path is what a
+				// snapshot is for
+				if as, ok := g.Parent(idn).(*ast.AssignStmt); ok && len(as.Lhs) == 1 && len(as.Rhs) == 1 && as.Rhs[0] == ast.Expr(idn) && f.Prog.NodeStr(as.Lhs[0]) == w.path {
+					return true
+				}
 				for _, rd := range g.ReachingDefs(d.Var, up) {
 					if rd == d {
 						use = idn
@@ -261,6 +266,67 @@ func staleCopies(c *cx, id string, f *eng.Fn) int {
 			n++
 			c.r.Check(id, f, "copy "+f.LocalName(d.Var)+" of "+w.path, "E-stale: a local computed from a selector path is not used after that path was assigned", d.Node.Pos(), use == nil, "computed at "+c.p.Pos(d.Node.Pos())+" from "+w.path+", which is assigned at "+c.p.Pos(w.pos.Pos())+"; the copy is still used afterwards (it describes the value before the write)")
 		}
+	}
+	return n
+}
+
+// optionalPointerFields (E-nil, belief rule): an exported pointer field of a
+// payload type is optional by construction: the zero value leaves it nil and
+// so does the type's decoder when the element or attribute is missing or
+// empty. A method of the type that calls a method on the field or selects
+// through it must have established that it is not nil (the decoder's output is
+// the input of these methods: Slot.Put after a <put url=""/>).
+func optionalPointerFields(c *cx, id string, in func(f *eng.Fn) bool) int {
+	n := 0
+	for _, f := range c.allFns() {
+		if f.Body == nil || f.Obj == nil || !in(f) || f.Sig() == nil || f.Sig().Recv() == nil {
+			continue
+		}
+		// values of unexported types are built by the package itself
+		if tn := recvTypeName(f); tn == nil || !tn.Exported() {
+			continue
+		}
+		g := f.Graph()
+		f.WalkBody(func(nd ast.Node) bool {
+			sel, ok := nd.(*ast.SelectorExpr)
+			if !ok {
+				return true
+			}
+			inner, ok := ast.Unparen(sel.X).(*ast.SelectorExpr)
+			if !ok {
+				return true
+			}
+			x := f.Norm(inner, nil)
+			if !strings.HasPrefix(x, "recv.") || strings.Count(x, ".") != 1 {
+				return true
+			}
+			s := f.Info().Selections[inner]
+			if s == nil || s.Kind() != types.FieldVal || !s.Obj().Exported() {
+				return true
+			}
+			pt, isPtr := s.Obj().Type().(*types.Pointer)
+			if !isPtr {
+				return true
+			}
+			// a method with a pointer receiver, or a field of the pointee: needs a non-nil pointer
+			s2 := f.Info().Selections[sel]
+			if s2 == nil {
+				return true
+			}
+			if s2.Kind() == types.MethodVal {
+				// methods documented nil-safe are rare; a value-receiver method derefs, a
+				// pointer-receiver method of a foreign type is assumed to deref as well
+				_ = pt
+			}
+			p, okp := g.Where(sel)
+			if !okp {
+				return true
+			}
+			n++
+			okd, why := g.DominatedAny(p, []string{"!eq(" + x + ",nil)"})
+			c.r.Check(id, f, "use through optional pointer "+x, "E-nil: a method call or field access through an exported pointer field of the receiver is dominated by a non-nil test of that field", sel.Pos(), okd, why)
+			return true
+		})
 	}
 	return n
 }
